@@ -320,7 +320,7 @@ Definition check_bounds (md : mode) (p : ptp) : bool :=
    in_rng (p_dom p) 1 maxd) &&
   (match p_year p with
    | Some y => in_rng (p_week p) 1 (get_weeks_in_year md y) && in_rng (p_doy p) 1 (get_days_in_year md y)
-   | None => in_rng (p_week p) 1 53 && in_rng (p_doy p) 1 (DAYS_IN_YEAR_LEAP md)
+   | None => in_rng (p_week p) 1 (max_weeks_in_year md) && in_rng (p_doy p) 1 (DAYS_IN_YEAR_LEAP md)
    end) &&
   in_rng (p_dow p) 1 7 &&
   in_rngq (p_hour p) 0 24 &&
